@@ -133,6 +133,13 @@ def step(segs, i, ctx, tl=True):
     node = ctx.node
     last = i == len(segs) - 1
 
+    if isinstance(node, VList):
+        # What follows a slice is documented for keys only (the key of every
+        # selected element); whether an index, wildcard, search, anchor or
+        # traversal addresses the virtual list or its elements is not.
+        if kind != "key" or as_int(seg[1]) is not None:
+            raise Unspecified("%s segment applied to a slice" % kind)
+
     if kind == "key":
         return _key(segs, i, ctx, tl)
 
